@@ -2981,6 +2981,31 @@ where
             ));
         }
 
+        // A triangulation built over a periodic domain keeps that domain for its whole life:
+        // later insertions are wrapped into the fundamental domain exactly like the vertices
+        // handed to the builder. Non-periodic models leave the coordinates untouched.
+        let topology_model = self.global_topology.model();
+        let canonicalize = |coords: &mut [K::Scalar; D]| {
+            topology_model
+                .canonicalize_point_in_place(coords)
+                .map_err(|error| {
+                    InsertionError::Construction(
+                        TriangulationConstructionError::GeometricDegeneracy {
+                            message: format!(
+                                "Failed to canonicalize vertex coordinates {coords:?}: {error}"
+                            ),
+                        },
+                    )
+                })
+        };
+        let mut canonical_coords = *vertex.point().coords();
+        canonicalize(&mut canonical_coords)?;
+        let vertex = if canonical_coords == *vertex.point().coords() {
+            vertex
+        } else {
+            Vertex::new_with_uuid(Point::new(canonical_coords), vertex.uuid(), vertex.data)
+        };
+
         let mut stats = InsertionStatistics::default();
         let original_coords = *vertex.point().coords();
         let original_uuid = vertex.uuid();
@@ -3050,6 +3075,10 @@ where
                         }
                     };
                     *coord += signed_perturbation * coord_scale;
+                }
+                // A perturbed coordinate may leave the fundamental domain; wrap it back.
+                if !has_non_finite(&perturbed_coords) {
+                    canonicalize(&mut perturbed_coords)?;
                 }
 
                 // Preserve the caller-provided vertex UUID across perturbation retries.
